@@ -47,7 +47,9 @@ const (
 )
 
 func buildFlow132(s map[string]string) map[string]any {
-	cat := func(u, name, exit string) map[string]any { return map[string]any{"uuid": u, "name": name, "exit_uuid": exit} }
+	cat := func(u, name, exit string) map[string]any {
+		return map[string]any{"uuid": u, "name": name, "exit_uuid": exit}
+	}
 	return map[string]any{
 		"uuid": "76f0a02f-3b75-4b86-9064-e9195e1b3a02", "name": notTmpl, "spec_version": "13.2.0", "language": "eng", "type": "messaging",
 		"localization": map[string]any{
@@ -341,6 +343,100 @@ func migrationStream(o *hx.Opts, res *hx.Result, r *hx.Rand, exprs []string, add
 			a, _ := json.Marshal(after)
 			res.Fail("migrate13_3:other-field-changed", map[string]any{"original": string(data), "migrated": string(migrated)},
 				"something other than the template slots and spec_version changed: with the slots restored the document is "+string(a))
+		}
+	}
+}
+
+// R4 (second hunt, finding C11/1): Parse rejects expressions nested deeper than a limit (excellent.MaxParseDepth). A
+// rewrite must not silently turn a template that evaluates into one that does not: for the longest operator chain
+// Parse still accepts (found by search, so independent of the constant), refactor.Template with the rename of the
+// 13.3 migration (which makes the deepest leaf one level deeper) and with a re-printing identity must either report an
+// error and keep the template as it was, or return a template that evaluates as before in the moved context.
+func depthLimitOracle(res *hx.Result) {
+	shapes := []struct {
+		name  string
+		build func(n int) string
+	}{
+		{"additions", func(n int) string { return "webhook" + strings.Repeat(" + 1", n) }},
+		{"concatenations", func(n int) string { return "webhook" + strings.Repeat(` & "a"`, n) }},
+		{"minus-chain", func(n int) string { return strings.Repeat("-", n) + "webhook" }},
+		{"parentheses", func(n int) string { return strings.Repeat("(", n) + "-webhook" + strings.Repeat(")", n) }},
+	}
+	parses := func(e string) bool { _, err := excellent.Parse(e, nil); return err == nil }
+	for _, sh := range shapes {
+		if !parses(sh.build(1)) || parses(sh.build(20000)) {
+			res.Dist("depth-limit:" + sh.name + ":no-limit-found")
+			continue
+		}
+		lo, hi := 1, 20000 // lo parses, hi does not
+		for hi-lo > 1 {
+			mid := (lo + hi) / 2
+			if parses(sh.build(mid)) {
+				lo = mid
+			} else {
+				hi = mid
+			}
+		}
+		for _, n := range []int{lo, lo - 1, lo - 2} {
+			tpl := "total: @(" + sh.build(n) + ")"
+			ctx := map[string]types.XValue{"webhook": types.NewXNumberFromInt(5)}
+			ctxW := map[string]types.XValue{"webhook": types.NewXObject(map[string]types.XValue{"json": types.NewXNumberFromInt(5)})}
+			a, ae, ap := templateReal(tpl, ctx)
+			if ap != "" || ae {
+				res.Dist("depth-limit:" + sh.name + ":original-does-not-evaluate")
+				continue
+			}
+			// through the real migration: Migrate13_3 has nowhere to report that it could not rewrite the expression
+			if n == lo {
+				res.OracleChecks++
+				slots := map[string]string{}
+				for _, name := range slotNames {
+					slots[name] = "x"
+				}
+				slots["msg.text"] = tpl
+				data, _ := json.Marshal(buildFlow132(slots))
+				migrated, err := migrations.MigrateToVersion(data, semver.MustParse("13.3.0"), migrations.DefaultConfig)
+				var after map[string]any
+				if err == nil {
+					err = json.Unmarshal(migrated, &after)
+				}
+				if err != nil {
+					res.Fail("migrate13_3:migration-error", map[string]any{"shape": sh.name, "operators": n}, err.Error())
+				} else {
+					get, _ := slotRef(after, "msg.text")
+					out, _ := get()
+					b, be, bp := templateReal(out, ctxW)
+					if bp != "" || be || a != b {
+						res.Fail("migrate13_3:expression-at-parse-depth-limit-not-migrated", map[string]any{"shape": sh.name, "operators": n},
+							fmt.Sprintf("send_msg text `total: @(%s)` with a chain of %d %s (the longest Parse accepts) evaluates to %q before the 13.3 migration (webhook = 5); the migrated flow has the text %q, which evaluates to %q err=%v with webhook = {json: 5}",
+								ellipsis(sh.build(n), 40), n, sh.name, ellipsis(a, 40), ellipsis(out, 40), ellipsis(b, 40), be))
+					}
+				}
+			}
+			for _, tx := range []struct {
+				name string
+				f    func(excellent.Expression) bool
+				ctx  map[string]types.XValue
+			}{
+				{"ContextRefRename(webhook, webhook.json)", refactor.ContextRefRename("webhook", "webhook.json"), ctxW},
+				{"re-printing identity", func(excellent.Expression) bool { return true }, ctx},
+			} {
+				res.OracleChecks++
+				out, err := refactor.Template(tpl, []string{"webhook"}, tx.f)
+				if err != nil {
+					if out != tpl {
+						res.Fail("rename:expression-at-parse-depth-limit-deepened", map[string]any{"shape": sh.name, "operators": n, "transformation": tx.name},
+							fmt.Sprintf("%s on a chain of %d %s (the longest Parse accepts: %d) reports an error but does not keep the template as it was", tx.name, n, sh.name, lo))
+					}
+					continue
+				}
+				b, be, bp := templateReal(out, tx.ctx)
+				if bp != "" || be || a != b {
+					res.Fail("rename:expression-at-parse-depth-limit-deepened", map[string]any{"shape": sh.name, "operators": n, "transformation": tx.name},
+						fmt.Sprintf("template `total: @(%s)` with a chain of %d %s (the longest Parse accepts: %d) evaluates to %q; after %s, which reports no error, the template evaluates to %q err=%v panic=%q",
+							ellipsis(sh.build(n), 40), n, sh.name, lo, ellipsis(a, 40), tx.name, ellipsis(b, 40), be, bp))
+				}
+			}
 		}
 	}
 }
